@@ -67,6 +67,8 @@ partial def toTm : SExp → Option Tm
     pure (chain ts)
   | .list [.atom "lit", .atom n] => n.toInt?.map .lit
   | .list [.atom "str", .atom s] => some (.str s)
+  | .list [.atom "nil"] => some .nilE
+  | .list [.atom "letn", .atom d, .atom x] => d.toNat?.map (fun d => .letN d x)
   | .list [.atom "var", .atom o, .atom x] => o.toNat?.map (fun o => .var o x)
   | .list [.atom "assign", .atom o, .atom x, e] => do
     let o ← o.toNat?
@@ -141,7 +143,7 @@ def showEv : Ev → String
   | .get (.box s) => s!"GB {s}" | .set (.box s) => s!"SB {s}"
   | .get (.capture i) => s!"GC {i}" | .set (.capture i) => s!"SC {i}"
   | .get (.modsym k) => s!"GM {k}" | .set (.modsym k) => s!"SM {k}"
-  | .emptyBox => "EB" | .fillBox => "FB" | .box s => s!"BX {s}"
+  | .emptyBox => "EB" | .fillBox => "FB" | .box s => s!"BX {s}" | .nil => "NL"
   | .closure f caps => " ".intercalate (("CL " ++ f) :: caps.map showCap)
   | .funConst f => "FN " ++ f
 
